@@ -170,6 +170,19 @@ func (v *vc) discharge(ob *obligation, opts solveOpts, workDir string) {
 	}
 	agree := 0
 	var total int64
+	if strings.Contains(text, "(forall") && !opts.twoSolvers {
+		// Most safety obligations do not need the quantified hypotheses: try to prove the goal from the
+		// quantifier-free subset of the facts first (fewer hypotheses: sound), then fall back to the full VC.
+		sub := v.smtSubset(ob)
+		sfile := filepath.Join(workDir, sanitize(ob.name)+".qf.smt2")
+		os.WriteFile(sfile, []byte(sub), 0o644)
+		status, _, ms := runSolver(solvers[0], sfile, 3)
+		total += ms
+		if status == "unsat" {
+			ob.status, ob.backend, ob.ms = "unsat", solvers[0].name+"(qf-subset of hypotheses)", total
+			return
+		}
+	}
 	for i, s := range solvers {
 		t := opts.timeoutS
 		if i > 0 && t > 10 && !opts.twoSolvers {
